@@ -252,6 +252,15 @@ def handle (toks : List String) : String :=
     match parseCsvRows rows with
     | some rows => showCps (Pff.Csv.writeRows rows)
     | none => "bad-op"
+  | ["csvd", text] =>
+    match parseCps text with
+    | some text => match Pff.Csv.dictRead text with
+      | some rows =>
+        if rows.isEmpty then "~" else ";".intercalate (rows.map (fun r =>
+          ",".intercalate (r.vals.map (fun kv => s!"{showCps kv.1}={match kv.2 with | some v => showCps v | none => "None"}"))
+            ++ (if r.extra.isEmpty then "" else "+" ++ ",".intercalate (r.extra.map showCps))))
+      | none => "error"
+    | none => "bad-op"
   | ["csvr", text] =>
     match parseCps text with
     | some text => match Pff.Csv.readAll text with
